@@ -1,58 +1,31 @@
 (** Boolean classifiers of the known findings of C19 (one per `known:` line of
     /verif/known-findings.txt with property=C19).  The property theorems of
     Props/C19.v exclude exactly these classes; checks/c19.py evaluates the same
-    conditions on the driver side. *)
+    conditions on the driver side.
+    Repaired and removed: root-named-extensions (38fe584), stale-id-path-cache
+    (4564259). *)
 From Rocfl Require Import Base.Bytes Model.Listing.
 Open Scope N_scope.
 
-(** id=root-named-extensions.  An object whose root, or any directory on the way
-    to it below the storage root's first level, is NAMED [extensions]: the walk
-    skips that name at every depth (fs.rs:915; validate/mod.rs:1933 does the
-    same), so the object is never listed, never found by a scan and never
-    validated by validate_repo, although lookup through the layout path opens it
-    (layout 0003 and 0007: id [extensions]; no layout: any such object_root). *)
-Definition c19_root_named_extensions (t : tree) : bool :=
-  existsb (fun r => has_ext (fst r)) (spec_roots t).
-
 (** id=id-needs-json-escape.  Some committed id contains a quote, a backslash or
-    a control character: the pre-filter (fs.rs:39-40, 851-880) reads the raw JSON
+    a control character: the pre-filter (fs.rs:39-40, 985-1014) reads the raw JSON
     text, i.e. the ESCAPED id cut at the first quote, so a glob listing and the
-    lookup without layout test the wrong string. *)
+    lookup without layout test the wrong string; a scan that matched the cut
+    text caches that wrong object root (fs.rs:217-221), after which the same
+    handle answers the cut text with CorruptObject (fs.rs:238-246). *)
 Definition c19_id_needs_escape (t : tree) : bool :=
   existsb needs_escape (committed_ids t).
-
-Definition c19 (t : tree) : bool :=
-  c19_root_named_extensions t || c19_id_needs_escape t.
 
 (** id=layout-path-occupied.  The layout maps an id that was never committed to a
     path that exists without being that object's root (layouts 0002/0006: id
     [extensions] or the name of any file of the storage root): get_object
-    answers with a general error instead of NotFound (fs.rs:187-188) and the
+    answers with a general error instead of NotFound (fs.rs:235-236) and the
     object can never be created. *)
 Definition c19_layout_path_occupied (t : tree) (p : path) : bool :=
   match lookup_path t p with
   | None => false
   | Some (File _) => true
   | Some (Dir ces) => match parse_inventory ces with Ok _ => false | _ => true end
-  end.
-
-(** id=stale-id-path-cache.  The handle's id->path cache (fs.rs:48-50, never
-    evicted, not updated by purge) holds for [id] a path that is no longer the
-    truth: the object now lives elsewhere, or something else lives at that path. *)
-Definition root_is (id : bytes) (p : path) (r : objroot) : bool :=
-  path_eqb (fst r) p && existsb (bytes_eqb id) (root_id r).
-
-Definition cache_entry_ok (t : tree) (id : bytes) (p : path) : bool :=
-  if existsb (root_is id p) (spec_roots t) then true
-  else match lookup_path t p with
-       | None => negb (existsb (bytes_eqb id) (committed_ids t))
-       | Some _ => false
-       end.
-
-Definition c19_cache_stale (c : cache) (t : tree) (id : bytes) : bool :=
-  match cache_get c id with
-  | Some p => negb (cache_entry_ok t id p)
-  | None => false
   end.
 
 (** id=glob-qmark-one-byte.  globset compiles the glob to a byte regex ((?-u)), so
